@@ -134,4 +134,55 @@ def daemonStep (st : Option Catalog) : Step → Option Catalog
 
 def daemonRun (steps : List Step) : Option Catalog := steps.foldl daemonStep none
 
+/-! ### the signal loop of `try_running`, with its plumbing explicit
+
+  `daemonStep` above takes for granted that the catalog a reload builds is (a) installed in the
+  server and (b) the baseline of the *next* reload. In `run.rs` these are two separate pieces of
+  plumbing: `server.set_catalog(..)` (what queries are answered from) and the local variable
+  `catalog` of `try_running` (what `zones::reload` gets as `loaded`). `LoopShape` records how the
+  source does the plumbing — its four fields are read off `run.rs` by tools/extract_reload.py on
+  every run (`QV.Gen.reload…`) — and `loopStep` is the loop for an arbitrary shape. -/
+
+/-- how `try_running` / `reload_zones_and_keys` plumb the catalog -/
+structure LoopShape where
+  /-- `server.set_catalog(catalog.clone())` after the start-up load -/
+  startupInstalls : Bool
+  /-- the `Ok(new_catalog)` arm assigns `catalog = new_catalog` -/
+  threads : Bool
+  /-- `server.set_catalog(new_catalog…)` on the success path of a reload -/
+  installs : Bool
+  /-- `zones::reload(zone_configs, catalog)` gets the variable `catalog` of the loop -/
+  baselineIsCurrent : Bool
+  deriving Repr, DecidableEq
+
+/-- the shape the unchanged source has -/
+def LoopShape.good : LoopShape := ⟨true, true, true, true⟩
+
+/-- state of the daemon process -/
+structure DState where
+  /-- the catalog queries are answered from (`Server::set_catalog`); `none` before start-up -/
+  served : Option Catalog
+  /-- the variable `catalog` of `try_running`; `none` before start-up -/
+  var : Option Catalog
+
+/-- mirrors the start-up sequence and the `SIGHUP` arm of `try_running` for a loop of shape
+    `sh`; `alt` stands for whatever catalog a loop with `baselineIsCurrent = false` would pass
+    instead of its variable (nothing is assumed about it). -/
+def loopStep (sh : LoopShape) (alt : Catalog) (st : DState) : Step → DState
+  | .reload zones fs =>
+    match st.var with
+    | none =>
+      -- let mut catalog = Arc::new(zones::load(config.zones)); server.set_catalog(catalog.clone());
+      let c := load fs zones
+      ⟨if sh.startupInstalls then some c else st.served, some c⟩
+    | some v =>
+      -- reload_zones_and_keys(&reload_source, &server, &catalog)
+      let newCatalog := reload fs zones (if sh.baselineIsCurrent then v else alt)
+      ⟨if sh.installs then some newCatalog else st.served,
+       if sh.threads then some newCatalog else some v⟩
+  | .configError => st                                    -- Err(e) => error!(…)
+
+def loopRun (sh : LoopShape) (alt : Catalog) (steps : List Step) : DState :=
+  steps.foldl (loopStep sh alt) ⟨none, none⟩
+
 end QV.Reload
